@@ -1,0 +1,16 @@
+// SPDX-FileCopyrightText: 2026 The Pion community <https://pion.ly>
+// SPDX-License-Identifier: MIT
+
+//go:build verif && verif_sig && !js
+
+package webrtc
+
+// VerifCheckNextSignalingState exposes checkNextSignalingState to the
+// verification harness (properties C01-C03).
+func VerifCheckNextSignalingState(cur, next SignalingState, op int, sdpType SDPType) (SignalingState, error) {
+	return checkNextSignalingState(cur, next, stateChangeOp(op), sdpType)
+}
+
+// VerifErrRemoteDescriptionWithoutMid is the sentinel SetRemoteDescription and
+// CreateAnswer return for a media section without a mid.
+var VerifErrRemoteDescriptionWithoutMid = errPeerConnRemoteDescriptionWithoutMidValue //nolint:gochecknoglobals
